@@ -356,6 +356,7 @@ type event struct {
 	Rawtag   string `json:"rawtag"` // "" | "raw-utf8" | "raw-nonutf8": every name of the case is spelled with RAW octets >= 0x80 instead of \DDD
 	Spell    string `json:"spell"` // "" | "ddd-upper": owner names spelled with \DDD for capital letters (same octets)
 	KeyName  string `json:"keyname"`
+	Otherkey bool   `json:"otherkey"` // forge: the signature is made with the case's private key although `key' is another key (sigok false is expected)
 	Signer   string `json:"signer"` // "" | "ecdsa-short-r1" ...: how the signature was (or is to be) made
 	Data     hx.B   `json:"data"`
 	Odata    hx.B   `json:"odata"` // the specification's octets and the real signature of the sign event this variant derives from
@@ -761,7 +762,15 @@ func (g *gen) newCase(i int) caseT {
 	if g.r.Intn(3) == 0 {
 		c.origT = []uint32{300, 7200, 0xfffffffe}[g.r.Intn(3)]
 	}
-	switch g.r.Intn(4) {
+	switch g.r.Intn(4) + 4*((i/2)%2) {
+	case 4:
+		c.inc, c.exp = 4293757696, 1209599 // 2^32 - 14 d .. 14 d - 1: a window across the wrap of the 32-bit time (RFC 4034 s.3.1.5)
+	case 5:
+		c.inc, c.exp = 4294967295, 0 // one second across the wrap
+	case 6:
+		c.inc, c.exp = 0, 0
+	case 7:
+		c.inc, c.exp = 2147483648, 2147483647 // as far apart as serial arithmetic can compare
 	case 0:
 		c.inc, c.exp = 1600000000, 1600086400 // long expired: Verify does not look at the clock
 	case 1:
@@ -955,6 +964,57 @@ func keyFromRdata(b []byte, tmpl *rec) *rec {
 	k.F["Algorithm"] = float64(b[3])
 	k.F["PublicKey"] = anyBytes(b[4:])
 	return k
+}
+
+// carryFlags finds a flags word with the ZONE bit for the key such that the sum S of the 16-bit words of the DNSKEY RDATA has
+// (S mod 2^16) + (S div 2^16) >= 2^16, and the key tag of RFC 4034 appendix B for it (non-zero: Sign refuses tag 0).
+func carryFlags(key *rec) (int, int, bool) {
+	rd := keyRdata(key)
+	sum := func(fl int) int {
+		ac := 0
+		for i, b := range rd {
+			if i < 2 {
+				continue
+			}
+			if i&1 == 1 {
+				ac += int(b)
+			} else {
+				ac += int(b) << 8
+			}
+		}
+		return ac + fl
+	}
+	for fl := 0xFFFF; fl >= 0x100; fl-- {
+		if fl&0x100 == 0 {
+			continue
+		}
+		s := sum(fl)
+		if s&0xFFFF+s>>16 >= 0x10000 {
+			tag := (s + (s>>16)&0xFFFF) & 0xFFFF
+			if tag != 0 {
+				return fl, tag, true
+			}
+		}
+	}
+	return 0, 0, false
+}
+
+// sameTagKey exchanges two differing modulus octets at positions of equal parity: another RSA key, the same key tag.
+func sameTagKey(key *rec) (*rec, bool) {
+	pk := bytesOf(key.F["PublicKey"])
+	if len(pk) < 40 {
+		return nil, false
+	}
+	for i := len(pk) - 3; i > 8; i-- {
+		if pk[i] != pk[i+2] {
+			b := append([]byte{}, pk...)
+			b[i], b[i+2] = b[i+2], b[i]
+			k := clone(key)
+			k.F["PublicKey"] = anyBytes(b)
+			return k, true
+		}
+	}
+	return nil, false
 }
 
 // ------------------------------------------------------------------ record
@@ -1363,6 +1423,51 @@ func (rc *recorder) variants(of, ci int, c *caseT, alg string, privs map[string]
 		s.F["OrigTtl"] = anyBytes(be32(0x12345678).Bytes())
 		forge("forge-origttl", s, key, mapSet(func(i int, a *wire.RR) { a.Ttl = be32(uint32(i)) }))
 	}
+	// ---- validity windows across the wrap of the 32-bit clock: Verify does not look at the period at all
+	for _, w := range [][2]uint32{{4293757696, 1209599}, {4294967295, 0}, {0, 0}, {100, 99}} {
+		s := clone(sig)
+		s.F["Inception"], s.F["Expiration"] = anyBytes(be32(w[0]).Bytes()), anyBytes(be32(w[1]).Bytes())
+		forge("forge-window-wrap", s, key, base)
+	}
+	// ---- a key whose tag needs the carry of RFC 4034 appendix B folded once, not until it is gone: the flags word (reserved
+	// bits are free, ZONE set) is chosen so that low + high of the 32-bit sum reaches 2^16.  Two RRSIGs: one carrying the tag
+	// the LIBRARY computes for the key, one the tag computed here per appendix B; the specification says which is right.
+	if fl, rfcTag, ok := carryFlags(key); ok {
+		k := clone(key)
+		k.F["Flags"] = float64(fl)
+		forge("forge-keytag-carry-library-tag", withTag(sig, k), k, base)
+		s := clone(sig)
+		s.F["KeyTag"] = float64(rfcTag)
+		forge("forge-keytag-carry-appendix-b-tag", s, k, base)
+	}
+	// ---- two different RSA keys of one owner, algorithm AND key tag (two modulus octets of equal parity exchanged), used
+	// alternately in this process in both orders, each pair under an owner of its own (a key must never be found by name and tag)
+	if kb, ok := sameTagKey(key); ok && ci < 8 && (an == 5 || an == 8 || an == 10) {
+		for _, first := range []string{"a", "b"} {
+			z := append(name{[]byte("rsa" + first + strconv.Itoa(ci))}, c.zone...)
+			o := append(name{[]byte("www")}, z...)
+			s := clone(sig)
+			s.Owner = toB(o)
+			s.F["SignerName"] = anyName(z)
+			s.F["Labels"] = float64(len(o))
+			ka, kbb := clone(key), clone(kb)
+			ka.Owner, kbb.Owner = toB(z), toB(z)
+			rs := mapSet(func(i int, a *wire.RR) { a.Name = toB(o) })
+			emitOther := func() {
+				f := clone(s)
+				f.F["Signature"] = []interface{}{}
+				rc.emit(&event{Ev: "check", Of: of, Kind: "forge-rsa-same-tag-other-key", Alg: alg, Case: ci, Rrset: rs, Key: kbb, Sig: f, Forge: true, Otherkey: true, KeyName: alg})
+			}
+			if first == "b" {
+				emitOther()
+			}
+			forge("forge-rsa-same-tag-right-key", s, ka, rs)
+			if first == "a" {
+				emitOther()
+			}
+			forge("forge-rsa-same-tag-right-key", s, ka, rs) // and once more after the other key was seen
+		}
+	}
 	// ---- names that differ in ONE octet by 0x20, for every octet value: only the 26 letter pairs are the same name
 	// (RFC 4343).  A rotating window of octet values per signature; the three quick shards together cover all 256.
 	{
@@ -1506,7 +1611,7 @@ func finish(eventsPath, emitPath, keysPath, verifyPath string) {
 				}
 			}
 			sigok := len(m.Data) > 0 && stdVerify(an, bytesOf(e.Key.F["PublicKey"]), m.Data.Bytes(), bytesOf(sig.F["Signature"]))
-			if e.Forge && !sigok && intOf(e.Key.F["Algorithm"]) == an {
+			if e.Forge && !sigok && !e.Otherkey && intOf(e.Key.F["Algorithm"]) == an {
 				hx.Die("event %d: the standard library rejects its own signature", e.Id)
 			}
 			gs, gk := goSig(sig), goKey(e.Key)
